@@ -51,19 +51,10 @@ Definition cfg_inv (ops : list op) : nat -> bool :=
   | None => fun _ => true
   end.
 
-(* side conditions per pass number (C07/Judge.v): 3 remove_redundant_ops, 4 dce, 5 simplify_cfg;
-   1/2 (in-place NOOP replacement) have no proved side condition yet *)
-Definition side_ok (p : N) (before : list op) : bool :=
-  match p with
-  | 3 => delete_ok all_inv before (redundant_keep before)
-  | 4 => if has_jmpaddr before then true
-         else match dce_keep before with Some keep => delete_ok all_inv before keep | None => false end
-  | 5 => match before with [] => true | _ =>
-           if has_jmpaddr before then true
-           else match cfg_keep before with Some keep => delete_ok (cfg_inv before) before keep | None => false end
-         end
-  | _ => true
-  end.
+(* per pass number (C07/Judge.v), the decidable precondition of the pass's preservation theorem,
+   evaluated on every real input of the pass: use/def table well-formedness; for
+   remove_sequential_jumps also that the flags the new NOOPs clear are dead (not proved in general) *)
+Definition side_ok_placeholder := tt.
 
 (* behaviour preservation of a deletion, for every instruction semantics in which RVRT stops and
    side-effect-free ops do not trap: stuttering simulation in both directions between related
@@ -146,3 +137,18 @@ Definition dce_table_ok (ops : list op) : bool :=
 
 Definition dceK (ops : list op) (keep : list bool) (r : reg) : Prop :=
   exists i o, nth_error keep i = Some false /\ nth_error ops i = Some o /\ In r (defs_c o).
+
+(* the flags a NOOP put in place of a jump clears are dead there in the new program *)
+Definition seqj_flags_dead (ops : list op) : Prop :=
+  forall i a b, nth_error ops i = Some a -> nth_error ops (S i) = Some b -> jump_to_next a b = true ->
+    forall c, In c [R_OF; R_ERR] -> ~ live_in_c (remove_sequential_jumps ops) (S i) c.
+
+Definition side_ok (p : N) (before : list op) : bool :=
+  match p with
+  | 1 => seqj_side_ok before
+  | 2 => moves_table_ok before
+  | 3 => rro_table_ok before
+  | 4 => dce_table_ok before
+  | 5 => forallb wf_c_opb before
+  | _ => true
+  end.
